@@ -162,7 +162,7 @@ class Ctx:
 
 # ---------------------------------------------------------------- the repository's own tests as a trace source
 
-def repo_test_traces(ctx, pkg, pattern, out_path, keep=lambda ev: True, par=8, per_test_timeout=300, limit=None):
+def repo_test_traces(ctx, pkg, pattern, out_path, keep=lambda ev: True, par=8, per_test_timeout=300, limit=None, skip=()):
     """Build <pkg>'s test binary from REPO's working tree with -tags verif and run every test whose name
     matches `pattern` in a process of its own with VERIF_TRACE set (internal/vhook's file sink), so each
     test is one trace.  Writes `{"ev":"reset","case":<test>}` + the test's events (filtered by keep(ev))
@@ -186,7 +186,7 @@ def repo_test_traces(ctx, pkg, pattern, out_path, keep=lambda ev: True, par=8, p
         lock.close()
     cwd = os.path.join(REPO, pkg.lstrip("./"))
     p = subprocess.run([mine, "-test.list", pattern], cwd=cwd, env=goenv(), capture_output=True, text=True, timeout=120)
-    names = [l.strip() for l in p.stdout.splitlines() if l.startswith("Test")]
+    names = [l.strip() for l in p.stdout.splitlines() if l.startswith("Test") and l.strip() not in skip]
     if limit and len(names) > limit:
         rng = __import__("random").Random(ctx.seed)
         names = sorted(rng.sample(names, limit))
